@@ -75,3 +75,25 @@ package ring
 //@   loop 0 invariant forall pid int32 :: in(pid, result) ==> in(pid, r.desc.Partitions) && shardMember(r.desc.Partitions[pid], lookbackPeriod, lookbackUntil)
 //@   loop 1 invariant !isnil(result) && !isnil(exclude) && same(r, old(r)) && tokensCount == len(r.ringTokens) && 0 <= iterations && iterations <= tokensCount && 0 <= p && p <= tokensCount
 //@   loop 1 invariant forall pid int32 :: in(pid, result) ==> in(pid, r.desc.Partitions) && shardMember(r.desc.Partitions[pid], lookbackPeriod, lookbackUntil)
+//@
+//@ # ---- the token list of a sub-ring: a k-way merge of the per-zone token lists (C12 / C14 / C05 for sub-rings) ----
+//@ # proved: the result is ascending, every element of it is a token of some group, and (the defect a sentinel-based
+//@ # rewrite introduces) the merge stops only when every group is exhausted. That NO token is lost (the count) is not proved
+//@ # (it needs the sum of the group lengths over a map): bounded stand-in c14-subring.
+//@ pred fromGroups(gs [][]uint32, v uint32) = exists g, j int :: 0 <= g && g < len(gs) && 0 <= j && j < len(gs[g]) && gs[g][j] == v
+//@ func mergeTokenGroups
+//@   property C14 C12
+//@   requires forall n string :: in(n, groupsByName) ==> sortedNS(groupsByName[n])
+//@   ensures  ascending: sortedNS(result)
+//@   ensures  from_groups: forall a int :: 0 <= a && a < len(result) ==> (exists n string, j int :: in(n, groupsByName) && 0 <= j && j < len(groupsByName[n]) && groupsByName[n][j] == result[a])
+//@   loop 0 invariant len(groupsByIndex) == $i && len(nextIndex) == $i && tokenCount >= 0 && (forall g int :: 0 <= g && g < $i ==> nextIndex[g] == 0)
+//@   loop 0 invariant forall g int :: 0 <= g && g < len(groupsByIndex) ==> sortedNS(groupsByIndex[g]) && (exists n string :: in(n, groupsByName) && same(groupsByName[n], groupsByIndex[g]))
+//@   loop 1 invariant len(nextIndex) == len(groupsByIndex) && (forall g int :: 0 <= g && g < len(groupsByIndex) ==> 0 <= nextIndex[g] && nextIndex[g] <= len(groupsByIndex[g]))
+//@   loop 1 invariant sortedNS(merged) && (forall a, g, j int :: 0 <= a && a < len(merged) && 0 <= g && g < len(groupsByIndex) && nextIndex[g] <= j && j < len(groupsByIndex[g]) ==> merged[a] <= groupsByIndex[g][j])
+//@   loop 1 invariant forall a int :: 0 <= a && a < len(merged) ==> fromGroups(groupsByIndex, merged[a])
+//@   loop 2 invariant haveSeenGroupWithRemainingToken ==> 0 <= lowestTokenGroupIndex && lowestTokenGroupIndex < $i && nextIndex[lowestTokenGroupIndex] < len(groupsByIndex[lowestTokenGroupIndex]) && lowestToken == groupsByIndex[lowestTokenGroupIndex][nextIndex[lowestTokenGroupIndex]]
+//@   loop 2 invariant haveSeenGroupWithRemainingToken ==> (forall g int :: 0 <= g && g < $i && nextIndex[g] < len(groupsByIndex[g]) ==> lowestToken <= groupsByIndex[g][nextIndex[g]])
+//@   loop 2 invariant !haveSeenGroupWithRemainingToken ==> (forall g int :: 0 <= g && g < $i ==> nextIndex[g] >= len(groupsByIndex[g]))
+//@   # the merge returns early only when no group has a token left
+//@   loop 2 end assert picked_when_available: nextIndexInGroup < len(group) ==> haveSeenGroupWithRemainingToken
+//@   modifies nothing
